@@ -241,6 +241,9 @@ func init() {
 		if i.outSink != nil {
 			i.outSink(w, s)
 		}
+		if i.capture {
+			i.captured = append(i.captured, s)
+		}
 		n := 0
 		if cs, ok := s.(string); ok {
 			n = len(cs)
@@ -248,7 +251,7 @@ func init() {
 		return tuple{n, iface{}}
 	}
 	reg("fmt.Fprintf", func(fr *frame, a []value) value {
-		s, _ := fr.i.sprintf(fr, mustString(a[1], "fmt.Fprintf format"), a[2].([]value))
+		s := fr.i.formatValue(fr, a[1], a[2].([]value), "fmt.Fprintf format")
 		return sink(fr, a[0], s)
 	})
 	reg("fmt.Fprint", func(fr *frame, a []value) value { return sink(fr, a[0], fr.i.sprint(fr, a[1].([]value), false)) })
@@ -260,15 +263,93 @@ func init() {
 	reg("fmt.Println", func(fr *frame, a []value) value { return sink(fr, nil, fr.i.sprint(fr, a[0].([]value), true)) })
 	// github.com/fatih/color: colour objects are opaque (zero after init); their
 	// print methods are plain sinks (escape sequences are outside every claim)
+	// With verifColorOutput(true) they write what fatih/color v1.18 writes when colours are on:
+	// Fprint / Fprintf: ESC[<n>m + text + ESC[0m (a line break inside the text stays inside);
+	// Fprintln: ESC[<n>m + text + ESC[0m + "\n". <n> is always 33 here: the problem matcher's
+	// pattern treats every \d+ alike.
+	// color.New(attrs...) keeps its attributes (also when called from a package initialiser), so
+	// that the sequences written are the real ones: Fprint / Fprintf write ESC[a;b;..m text ESC[0m,
+	// Fprintln writes ESC[a;b;..m text ESC[r;..m "\n" with the per-attribute resets of fatih/color v1.18.
+	reg("github.com/fatih/color.New", func(fr *frame, a []value) value {
+		var ps []int
+		if sl, ok := a[0].([]value); ok {
+			for _, v := range sl {
+				ps = append(ps, int(asInt64(v)))
+			}
+		}
+		var cell value = colorObj{ps}
+		return &cell
+	})
+	seqOf := func(recv value) (string, string) {
+		on, off := "33", "0"
+		if p, ok := recv.(*value); ok && p != nil {
+			if c, ok := (*p).(colorObj); ok && len(c.params) > 0 {
+				var a, b []string
+				for _, v := range c.params {
+					a = append(a, strconv.Itoa(v))
+					r := 0
+					switch v {
+					case 1, 2:
+						r = 22
+					case 3:
+						r = 23
+					case 4:
+						r = 24
+					case 5, 6:
+						r = 25
+					case 7:
+						r = 27
+					case 8:
+						r = 28
+					case 9:
+						r = 29
+					}
+					b = append(b, strconv.Itoa(r))
+				}
+				on, off = strings.Join(a, ";"), strings.Join(b, ";")
+			}
+		}
+		return "\x1b[" + on + "m", "\x1b[" + off + "m"
+	}
 	for _, m := range []string{"Fprint", "Fprintln"} {
 		ln := m == "Fprintln"
 		reg("(*github.com/fatih/color.Color)."+m, func(fr *frame, a []value) value {
-			return sink(fr, a[1], fr.i.sprint(fr, a[2].([]value), ln))
+			i := fr.i
+			if i.colorOn {
+				on, off := seqOf(a[0])
+				if !ln {
+					off = "\x1b[0m"
+				}
+				s := i.strConcat(i.strConcat(on, i.sprint(fr, a[2].([]value), false)), off)
+				if ln {
+					s = i.strConcat(s, "\n")
+				}
+				return sink(fr, a[1], s)
+			}
+			return sink(fr, a[1], i.sprint(fr, a[2].([]value), ln))
 		})
 	}
 	reg("(*github.com/fatih/color.Color).Fprintf", func(fr *frame, a []value) value {
-		s, _ := fr.i.sprintf(fr, mustString(a[2], "color.Fprintf format"), a[3].([]value))
+		s := fr.i.formatValue(fr, a[2], a[3].([]value), "color.Fprintf format")
+		if fr.i.colorOn {
+			on, _ := seqOf(a[0])
+			s = fr.i.strConcat(fr.i.strConcat(on, s), "\x1b[0m")
+		}
 		return sink(fr, a[1], s)
+	})
+	reg(pkgPrefix+"verifColorOutput", func(fr *frame, a []value) value {
+		fr.i.colorOn = a[0].(bool)
+		return nil
+	})
+	reg(pkgPrefix+"verifCaptureOutput", func(fr *frame, a []value) value {
+		fr.i.capture = a[0].(bool)
+		if fr.i.capture {
+			fr.i.captured = nil
+		}
+		return nil
+	})
+	reg(pkgPrefix+"verifCapturedParts", func(fr *frame, a []value) value {
+		return append([]value{}, fr.i.captured...)
 	})
 	reg("(*github.com/fatih/color.Color).Sprint", func(fr *frame, a []value) value { return fr.i.sprint(fr, a[1].([]value), false) })
 	reg("(*github.com/fatih/color.Color).Sprintf", func(fr *frame, a []value) value {
@@ -276,4 +357,63 @@ func init() {
 		return s
 	})
 	_ = strconv.Itoa
+}
+
+type colorObj struct{ params []int }
+
+// formatValue: Sprintf whose format is not a constant. A text used as a format is printed
+// verbatim only if it contains no '%'; otherwise (one path decision) something else is printed —
+// modelled as the text followed by "%!(NOVERB)", good enough to make the difference observable;
+// what fmt really prints is seen by the native replay.
+func (i *interpreter) formatValue(fr *frame, f value, args []value, what string) value {
+	if fs, ok := f.(string); ok {
+		s, _ := i.sprintf(fr, fs, args)
+		return s
+	}
+	if len(args) != 0 {
+		panic(unsupported{what + ": symbolic format string with operands"})
+	}
+	if i.decide(i.mayContainPercent(f)) {
+		return i.strConcat(f, "%!(NOVERB)")
+	}
+	return f
+}
+
+func (i *interpreter) mayContainPercent(msg value) *Term {
+	tt := i.tt
+	switch m := msg.(type) {
+	case string:
+		return tt.Bool(strings.Contains(m, "%"))
+	case SymStr:
+		r := tt.False
+		for _, b := range m {
+			if c, ok := b.(uint8); ok {
+				if c == '%' {
+					return tt.True
+				}
+				continue
+			}
+			r = tt.Or(r, tt.Eq(b.(*Sym).t, tt.Const(8, '%')))
+		}
+		return r
+	case *Rope:
+		r := tt.False
+		for _, p := range m.parts {
+			switch {
+			case p.verb == "":
+				if p.raw != nil {
+					r = tt.Or(r, i.mayContainPercent(p.raw))
+				} else {
+					r = tt.Or(r, i.mayContainPercent(p.lit))
+				}
+			case p.verb == "%q" || p.verb == "%s" || p.verb == "%v":
+				switch p.arg.(type) {
+				case string, SymStr, *Rope:
+					r = tt.Or(r, i.mayContainPercent(p.arg))
+				}
+			}
+		}
+		return r
+	}
+	return tt.False
 }
